@@ -207,9 +207,9 @@ def worker(c):
 def run(ctx):
     rng = ctx.rng
     cs = []
-    for i in range(ctx.pick(16, 300)):
+    for i in range(ctx.pick(40, 300)):
         k = i % 4
-        base = {"seed": int(rng.integers(0, 2 ** 31)), "mseed": int(rng.integers(0, 2 ** 31)), "presteps": int(rng.integers(5, 60)), "nsizes": ctx.pick(32, 120)}
+        base = {"seed": int(rng.integers(0, 2 ** 31)), "mseed": int(rng.integers(0, 2 ** 31)), "presteps": int(rng.integers(5, 60)), "nsizes": ctx.pick(40, 120)}
         if k == 0:
             cs.append(dict(base, scene="piles", nclusters=int(rng.integers(2, 8)), per=int(rng.integers(3, 8))))
         elif k == 1:
@@ -218,9 +218,9 @@ def run(ctx):
             cs.append(dict(base, scene="gen", profile=["rich", "contact"][k % 2]))
     corp = [c for c in corpus.loadable() if (c["ncon"] >= 2 or c["nefc"] >= 4) and c["nv"] < 400 and c["nflex"] == 0]
     idx = rng.permutation(len(corp))
-    for i in idx[: ctx.pick(10, len(corp))]:
+    for i in idx[: ctx.pick(20, len(corp))]:
         c = corp[int(i)]
-        cs.append({"scene": "corpus", "path": c["path"], "seed": int(rng.integers(0, 2 ** 31)), "presteps": int(rng.integers(5, 60)), "nsizes": ctx.pick(32, 120)})
+        cs.append({"scene": "corpus", "path": c["path"], "seed": int(rng.integers(0, 2 ** 31)), "presteps": int(rng.integers(5, 60)), "nsizes": ctx.pick(40, 120)})
     res = par.run("vf.props.c20", "worker", cs, nproc=12, timeout=ctx.pick(600, 1800), chunk=1)
     acs = [dict(c, flavour="asan", nsizes=ctx.pick(12, 40)) for c in cs[: ctx.pick(6, 60)]]
     ares = par.run("vf.props.c20", "worker", acs, nproc=8, timeout=ctx.pick(900, 2400), asan=True, chunk=1)
